@@ -36,7 +36,18 @@ func acquireEncoder(width, height int, config *EncoderConfig) *Encoder {
 	enc.useSubtractGreen = false
 	enc.usePredict = false
 	enc.useCrossColor = false
+	enc.hasAlpha = false
 	return enc
+}
+
+// argbHasAlpha reports whether any pixel is not fully opaque.
+func argbHasAlpha(argb []uint32) bool {
+	for _, p := range argb {
+		if p>>24 != 0xff {
+			return true
+		}
+	}
+	return false
 }
 
 // releaseEncoder returns an Encoder to the pool for reuse.
@@ -107,6 +118,7 @@ type Encoder struct {
 	useSubtractGreen bool
 	usePredict       bool
 	useCrossColor    bool
+	hasAlpha         bool // source has a pixel with alpha != 0xff (header alpha_is_used bit)
 
 	// Reusable scratch buffers (reduce allocations across encodes).
 	hashChain      *HashChain       // reusable hash chain
@@ -173,6 +185,7 @@ func Encode(argb []uint32, width, height int, config *EncoderConfig) ([]byte, er
 		enc.argb = make([]uint32, pixelCount)
 	}
 	copy(enc.argb, argb)
+	enc.hasAlpha = argbHasAlpha(argb)
 
 	// Analyze image.
 	enc.analyze()
@@ -220,6 +233,7 @@ func EncodeToWriter(argb []uint32, width, height int, config *EncoderConfig,
 		enc.argb = make([]uint32, pixelCount)
 	}
 	copy(enc.argb, argb)
+	enc.hasAlpha = argbHasAlpha(argb)
 
 	enc.analyze()
 	if config.NearLosslessQuality < 100 {
@@ -501,8 +515,13 @@ func (enc *Encoder) encodeStream() ([]byte, error) {
 	bw.WriteBits(uint32(width-1), VP8LImageSizeBits)
 	// Height - 1 (14 bits).
 	bw.WriteBits(uint32(height-1), VP8LImageSizeBits)
-	// Alpha is used (1 bit).
-	bw.WriteBits(1, 1)
+	// Alpha is used (1 bit): set only when the picture has transparency, so
+	// that header queries describe the source truthfully.
+	if enc.hasAlpha {
+		bw.WriteBits(1, 1)
+	} else {
+		bw.WriteBits(0, 1)
+	}
 	// Version (3 bits).
 	bw.WriteBits(VP8LVersion, VP8LVersionBits)
 
